@@ -325,7 +325,14 @@ func vbC12Main(shard, nshards int, tier string) {
 					res.note("http-request", desc, S > limit)
 					proc, calls := vbBigProcessor(func() thrift.TStruct { return small })
 					rt := &vbHandlerRT{h: NewFrugalHandlerFunc(proc, pf)}
-					tr := NewFHTTPTransportBuilder(&http.Client{Transport: rt}, "http://x/frugal").WithRequestSizeLimit(uint(limit)).Build()
+					// transports are configuration products: the one under test is built from a builder and
+					// an application-wide header map that other transports with other limits are built
+					// from as well, before and after it (each keeps the limits it was built with)
+					bld := NewFHTTPTransportBuilder(&http.Client{Transport: rt}, "http://x/frugal").WithRequestHeaders(vbSharedHTTPHeaders)
+					bld.WithRequestSizeLimit(uint(4 * limit)).WithResponseSizeLimit(7).Build()
+					tr := bld.WithRequestSizeLimit(uint(limit)).WithResponseSizeLimit(0).Build()
+					bld.WithRequestSizeLimit(uint(limit / 4)).WithResponseSizeLimit(5).Build()
+					NewFHTTPTransportBuilder(&http.Client{Transport: rt}, "http://x/frugal").WithRequestHeaders(vbSharedHTTPHeaders).WithResponseSizeLimit(3).Build()
 					cl := NewFStandardClient(NewFServiceProvider(tr, pf))
 					err := cl.Call(vbNewCtx(), "big", args, &vbShape{})
 					got := vbErrType(err)
@@ -368,9 +375,16 @@ func vbC12Main(shard, nshards int, tier string) {
 					var reply thrift.TStruct = args
 					proc, _ := vbBigProcessor(func() thrift.TStruct { return reply })
 					rt := &vbHandlerRT{h: NewFrugalHandlerFunc(proc, pf)}
-					tr := NewFHTTPTransportBuilder(&http.Client{Transport: rt}, "http://x/frugal").WithResponseSizeLimit(uint(limit)).Build()
+					bld := NewFHTTPTransportBuilder(&http.Client{Transport: rt}, "http://x/frugal").WithRequestHeaders(vbSharedHTTPHeaders)
+					bld.WithResponseSizeLimit(uint(limit / 2)).Build()
+					tr := bld.WithResponseSizeLimit(uint(limit)).Build()
+					roomy := bld.WithResponseSizeLimit(uint(4*R + 64)).Build()
+					NewFHTTPTransportBuilder(&http.Client{Transport: rt}, "http://x/frugal").WithRequestHeaders(vbSharedHTTPHeaders).Build()
 					cl := NewFStandardClient(NewFServiceProvider(tr, pf))
 					got := vbErrType(cl.Call(vbNewCtx(), "big", small, &vbShape{}))
+					if g2 := vbErrType(NewFStandardClient(NewFServiceProvider(roomy, pf)).Call(vbNewCtx(), "big", small, &vbShape{})); g2 != "ok" {
+						res.fail("C12/response-within-limit-rejected/http/"+proto+"/"+shape, fmt.Sprintf("%s: a second transport of the same builder with limit %d: %s", desc, 4*R+64, g2))
+					}
 					switch {
 					case R > limit && got != "RESPONSE_TOO_LARGE":
 						res.fail("C12/response-limit-not-reported/http/"+proto+"/"+shape, desc+": caller saw "+got)
@@ -597,3 +611,7 @@ func vbC12Main(shard, nshards int, tier string) {
 	_ = sync.Mutex{}
 	json.NewEncoder(os.Stdout).Encode(res)
 }
+
+// vbSharedHTTPHeaders is the one header map every HTTP transport of the C12 cases is built with (an
+// application-wide default such as an API key header).
+var vbSharedHTTPHeaders = map[string]string{"x-app": "verif"}
